@@ -127,3 +127,16 @@ Print Assumptions C01_qbits_output_is_a_float32_value.
 (* beyond 24 significant bits the identity fails: 2^24 + 1 is not a float32 value *)
 Theorem C01_float32_bridge_needs_24_bits : req (fl (16777217, 1)) (16777217, 1) = false.
 Proof. reflexivity. Qed.
+
+(* ---- max() / min() of quantized_bits as /repo has them now (coq/gen/ReportGen.v, regenerated on every run) ---- *)
+From QVGen Require ReportGen.
+From QV Require Link.ReportLink.
+Theorem C01_report_translation_ok : ReportGen.report_translation_ok = true.
+Proof. exact ReportLink.link_report_ok. Qed.
+(* the values THE CODE reports enclose every output of the quantizer (scale 1), for every configuration and every input *)
+Theorem C01_code_min_max_enclose : forall c x, 0 <= qb_ub c -> 0 < rden x ->
+  rle (ReportGen.gen_qbits_min (qb_bits c) (qb_int c) (qb_kn c)) (qb_val c (1, 1) x) = true /\
+  rle (qb_val c (1, 1) x) (ReportGen.gen_qbits_max (qb_bits c) (qb_int c) (qb_kn c)) = true.
+Proof. intros c x H D. destruct (ReportLink.link_qbits_reporters (qb_bits c) (qb_int c) (qb_kn c) (qb_sym c)) as [A B].
+  rewrite A, B. destruct c. apply qb_minmax_enclose; assumption. Qed.
+Print Assumptions C01_code_min_max_enclose.
